@@ -587,9 +587,7 @@ func (p *vparser) value() (Value, error) {
 				if err != nil {
 					return Value{}, err
 				}
-				if _, dup := obj.Fields[k.Value]; dup {
-					return Value{}, fmt.Errorf("duplicate key %q", k.Value)
-				}
+				// duplicate keys are legal in an object literal (the last one wins)
 				obj.Keys = append(obj.Keys, k.Value)
 				obj.Fields[k.Value] = v
 				n := p.peek()
